@@ -26,6 +26,7 @@ import threading
 import time
 
 WATCHDOG_S = 20.0
+MAX_STEPS = 4000        # scheduling steps per execution (the proved bound is 4(end-start)+8 LTS steps)
 
 
 class Abort(BaseException):
@@ -47,6 +48,12 @@ class Controller:
         self.errors: dict[str, str] = {}    # tid -> repr of an exception that escaped the thread
         self.queue_ref = None
         self.coarse_states: list = []       # queue length at every decision (evidence only)
+        # fairness for polling code: a non-blocking / timed put or get that failed (Full / Empty) is not
+        # scheduled again until the shared state has changed (a put, a get or a thread ending), i.e. a
+        # timeout is allowed to expire once per state, not for ever while the other thread is starved
+        self.version = 0
+        self.timed_out_at: dict[str, int] = {}
+        self.steps = 0
 
     # ---- called from the controlled threads --------------------------------
     def register(self, tid: str):
@@ -63,6 +70,7 @@ class Controller:
                 self.errors[tid] = f"{type(err).__name__}: {err}"
             if self.turn == tid:
                 self.turn = None
+            self.version += 1
             self.cv.notify_all()
 
     def park(self, tid: str, op: tuple):
@@ -81,6 +89,11 @@ class Controller:
 
     def event(self, *ev):
         self.trace.append(list(ev))
+        if ev and ev[0] in ("put", "get"):
+            self.version += 1
+
+    def timed_out(self, tid: str):
+        self.timed_out_at[tid] = self.version
 
     # ---- enabledness ----------------------------------------------------------
     def _enabled(self, tid: str) -> bool:
@@ -89,9 +102,13 @@ class Controller:
         if op is None:
             return False
         if op[0] == "put":
-            return (not op[2]) or q.maxsize <= 0 or q.qsize() < q.maxsize
+            if q.maxsize <= 0 or q.qsize() < q.maxsize:
+                return True
+            return (not op[2]) and self.timed_out_at.get(tid) != self.version
         if op[0] == "get":
-            return (not op[2]) or q.qsize() > 0
+            if q.qsize() > 0:
+                return True
+            return (not op[2]) and self.timed_out_at.get(tid) != self.version
         if op[0] == "join":
             return not self.live.get("P", False)
         return True     # read
@@ -125,6 +142,10 @@ class Controller:
                     self.n_choice_points += 1
                     self.taken.append(pick)
                 self.turn = pick
+                self.steps += 1
+                if self.steps > MAX_STEPS:
+                    status = "livelock"
+                    break
                 deadline = time.time() + WATCHDOG_S
                 self.cv.notify_all()
         self.stuck = {t: self.pending.get(t) for t, lv in self.live.items() if lv}
@@ -151,13 +172,21 @@ class SchedQueue(queue.Queue):
         waits = bool(block) and timeout is None
         self.ctl.park("P", ("put", d, waits))
         # enabled => not full (when waiting); never block for real
-        super().put(item, block=False)
+        try:
+            super().put(item, block=False)
+        except queue.Full:
+            self.ctl.timed_out("P")
+            raise
         self.ctl.event("put", d)
 
     def get(self, block=True, timeout=None):
         waits = bool(block) and timeout is None
         self.ctl.park("C", ("get", None, waits))
-        item = super().get(block=False)
+        try:
+            item = super().get(block=False)
+        except queue.Empty:
+            self.ctl.timed_out("C")
+            raise
         self.ctl.event("get", self.describe(item))
         return item
 
@@ -303,7 +332,16 @@ def repo_classes():
             def join(self, timeout=None):
                 self._sv_ctl.park("C", ("join",))
                 Thread.join(self, timeout=WATCHDOG_S)
-                self._sv_ctl.event("join", not self.is_alive())
+                self._sv_ctl.event("join", not Thread.is_alive(self))
+
+            def is_alive(self):
+                # a scheduling point of its own (code that polls the reader's liveness races with the
+                # reader's last puts); answered from the controller's view of the reader
+                import threading
+                if threading.current_thread() is not self and self._sv_ctl.live.get("C", False):
+                    self._sv_ctl.park("C", ("alive",))
+                    return bool(self._sv_ctl.live.get("P", False))
+                return Thread.is_alive(self)
         Controlled.__name__ = "Controlled" + base.__name__
         return Controlled
 
